@@ -329,6 +329,9 @@ pub struct EpCfg {
     pub client_connack_props: rf::Props,
     /// client role v5: receive_max requested in CONNECT / config
     pub tag: &'static str,
+    /// servers: the publish service is a hand-written `Service` whose `ready()` starts failing when the scenario
+    /// calls `fail_readiness()` (termination cause "service readiness error")
+    pub ready_gate: bool,
 }
 
 impl EpCfg {
@@ -369,6 +372,7 @@ impl EpCfg {
             client_keepalive: 0,
             client_connack_props: Vec::new(),
             tag: "EP",
+            ready_gate: false,
         }
     }
 
@@ -527,6 +531,69 @@ impl Drop for Conn {
         self.rgates.clear_wakers();
         self.cgates.clear_wakers();
         CGATES.with(|c| *c.borrow_mut() = None);
+        READY_GATE.with(|c| *c.borrow_mut() = None);
+    }
+}
+
+/// State of the publish service's readiness gate (EpCfg::ready_gate).
+#[derive(Default)]
+pub struct ReadyState {
+    failed: Cell<bool>,
+    waker: RefCell<Option<Waker>>,
+}
+
+thread_local! {
+    /// readiness gate of the connection created last on this thread
+    static READY_GATE: RefCell<Option<Rc<ReadyState>>> = const { RefCell::new(None) };
+}
+
+fn new_ready_state() -> Rc<ReadyState> {
+    let st = Rc::new(ReadyState::default());
+    READY_GATE.with(|c| *c.borrow_mut() = Some(st.clone()));
+    st
+}
+
+/// From now on `Service::ready()` of the publish service returns an error; the task that asked last is woken
+/// (a service whose background part has failed notifies whoever waits for its readiness).
+pub fn fail_readiness() {
+    READY_GATE.with(|c| {
+        if let Some(st) = c.borrow().as_ref() {
+            st.failed.set(true);
+            if let Some(w) = st.waker.borrow_mut().take() {
+                w.wake();
+            }
+        }
+    });
+}
+
+/// Publish service with an explorer-controlled readiness failure; `call` is the ordinary handler closure.
+pub struct ReadyGate<F> {
+    f: F,
+    st: Rc<ReadyState>,
+}
+
+impl<F, Req, Fut, Res> ntex_service::Service<Req> for ReadyGate<F>
+where
+    F: Fn(Req) -> Fut,
+    Fut: Future<Output = Result<Res, TErr>>,
+{
+    type Response = Res;
+    type Error = TErr;
+
+    async fn ready(&self, _: ntex_service::ServiceCtx<'_, Self>) -> Result<(), TErr> {
+        std::future::poll_fn(|cx| {
+            if self.st.failed.get() {
+                Poll::Ready(Err(TErr::Plain))
+            } else {
+                *self.st.waker.borrow_mut() = Some(cx.waker().clone());
+                Poll::Ready(Ok(()))
+            }
+        })
+        .await
+    }
+
+    async fn call(&self, req: Req, _: ntex_service::ServiceCtx<'_, Self>) -> Result<Res, TErr> {
+        (self.f)(req).await
     }
 }
 
@@ -1086,7 +1153,19 @@ pub async fn start_v5_server(cfg: &EpCfg) -> Conn {
         });
     } else {
         let publish = move |p: v5::Publish| v5_publish_handler(p, c.clone(), log.clone(), g.clone(), rg.clone(), "");
-        if cfg.proto_default_service {
+        if cfg.ready_gate {
+            let st = new_ready_state();
+            let publish = fn_factory_with_config(move |_: v5::Session<()>| {
+                let svc = ReadyGate { f: publish.clone(), st: st.clone() };
+                async move { Ok::<_, TErr>(svc) }
+            });
+            let srv = v5::MqttServer::new(handshake).protocol(protocol).control(control).publish(publish);
+            let svc = ServiceFactory::<IoBoxed, SharedCfg>::create(&srv, scfg).await.expect("create v5 server");
+            ntex_rt::spawn(async move {
+                let r = Pipeline::new(svc).call(io).await;
+                log_done.push(Rec::ConnDone(format!("{r:?}")));
+            });
+        } else if cfg.proto_default_service {
             let srv = v5::MqttServer::new(handshake).control(control).publish(publish);
             let svc = ServiceFactory::<IoBoxed, SharedCfg>::create(&srv, scfg).await.expect("create v5 server");
             ntex_rt::spawn(async move {
@@ -1135,7 +1214,19 @@ pub async fn start_v3_server(cfg: &EpCfg) -> Conn {
     let publish = move |p: v3::Publish| v3_publish_handler(p, c.clone(), log.clone(), g.clone(), rg.clone());
     let log_done = h.log.clone();
     let io = IoBoxed::from(Io::new(server_io, scfg.clone()));
-    if cfg.proto_default_service {
+    if cfg.ready_gate {
+        let st = new_ready_state();
+        let publish = fn_factory_with_config(move |_: v3::Session<()>| {
+            let svc = ReadyGate { f: publish.clone(), st: st.clone() };
+            async move { Ok::<_, TErr>(svc) }
+        });
+        let srv = v3::MqttServer::new(handshake).protocol(protocol).control(control).publish(publish);
+        let svc = ServiceFactory::<IoBoxed, SharedCfg>::create(&srv, scfg).await.expect("create v3 server");
+        ntex_rt::spawn(async move {
+            let r = Pipeline::new(svc).call(io).await;
+            log_done.push(Rec::ConnDone(format!("{r:?}")));
+        });
+    } else if cfg.proto_default_service {
         let srv = v3::MqttServer::new(handshake).control(control).publish(publish);
         let svc = ServiceFactory::<IoBoxed, SharedCfg>::create(&srv, scfg).await.expect("create v3 server");
         ntex_rt::spawn(async move {
